@@ -19,6 +19,7 @@ type Report struct {
 	Samples     []string       `json:"samples"`
 	Notes       []string       `json:"notes,omitempty"`
 	distinctSet map[string]bool
+	perClause   map[string]int
 }
 
 type Finding struct {
@@ -31,7 +32,7 @@ type Finding struct {
 }
 
 func newReport(mode string, seed int64) *Report {
-	return &Report{Mode: mode, Seed: seed, Dist: map[string]int{}, distinctSet: map[string]bool{}, Diffs: []Finding{}, Violations: []Finding{}, Samples: []string{}}
+	return &Report{Mode: mode, Seed: seed, Dist: map[string]int{}, distinctSet: map[string]bool{}, perClause: map[string]int{}, Diffs: []Finding{}, Violations: []Finding{}, Samples: []string{}}
 }
 
 func (r *Report) hit(k string)  { r.Dist[k]++ }
@@ -52,7 +53,13 @@ func (r *Report) diff(f Finding) {
 	}
 }
 func (r *Report) violation(f Finding) {
-	if len(r.Violations) < 50 {
+	// keep a few per (property, clause) so that a noisy clause does not hide the others
+	k := "v|" + f.Property + "|" + f.Clause
+	if r.Dist == nil {
+		r.Dist = map[string]int{}
+	}
+	r.perClause[k]++
+	if r.perClause[k] <= 4 && len(r.Violations) < 200 {
 		r.Violations = append(r.Violations, f)
 	}
 }
